@@ -2,6 +2,7 @@ package jschema
 
 import (
 	"github.com/jsightapi/jsight-schema-core/notations/jschema/ischema"
+	"github.com/jsightapi/jsight-schema-core/notations/jschema/ischema/constraint"
 	"github.com/jsightapi/jsight-schema-core/zzverif"
 	"github.com/jsightapi/jsight-schema-core/zzverif/zzjson"
 )
@@ -191,4 +192,109 @@ func VerifC07_AdditionalProperties() {
 	refuse := a != 0 && b != 0 && a != b
 	want := []aProp{{key: "a"}, {key: "b", from: "@p"}}
 	aCheck(root, want, refuse)
+}
+
+func aRequired(obj *ischema.ObjectNode) []string {
+	c := obj.Constraint(constraint.RequiredKeysConstraintType)
+	if c == nil {
+		return nil
+	}
+	return c.(*constraint.RequiredKeys).Keys()
+}
+
+// aCheckObject compares one compiled object with its expected property list,
+// including the set of required keys.
+func aCheckObject(obj *ischema.ObjectNode, want []aProp) {
+	zzverif.Assert(len(obj.Children()) == len(want), "the compiled object has own + inherited properties")
+	if len(obj.Children()) != len(want) {
+		return
+	}
+	var req []string
+	for i, p := range want {
+		zzverif.Assert(obj.Key(i).Key == p.key, "own properties first, then inherited ones, in order")
+		zzverif.Assert(obj.Children()[i].InheritedFrom() == p.from, "each inherited property is marked with the type it came from")
+		if !p.optional {
+			req = append(req, p.key)
+		}
+	}
+	got := aRequired(obj)
+	same := len(got) == len(req)
+	if same {
+		// as sets
+		for _, k := range req {
+			found := false
+			for _, g := range got {
+				if g == k {
+					found = true
+				}
+			}
+			same = same && found
+		}
+	}
+	zzverif.Assert(same, "exactly the non-optional own and inherited properties are required")
+}
+
+// VerifC07_Heirs: several heirs of the same parents in one project, an heir
+// inside a referenced type, and inherited object-valued properties.
+func VerifC07_Heirs() {
+	zzverif.Expect("checked")
+	k1, k2, k3 := aKey("k1"), aKey("k2"), aKey("k3")
+	zzverif.Assume(k1 != k2)
+	o1, o2 := zzverif.Bool("opt1"), zzverif.Bool("opt2")
+	pp := []aProp{{key: k1, optional: o1}}
+	qq := []aProp{{key: k2, optional: o2}}
+	switch zzverif.IntRange("shape", 0, 2) {
+	case 0: // two heirs: the first inherits @p and @q, the second only @p
+		text := "{\n  \"u\": { // {allOf: [\"@p\", \"@q\"]}\n  },\n  \"v\": { // {allOf: \"@p\"}\n    \"" + k3 + "\": 1\n  },\n  \"w\": { // {allOf: \"@q\"}\n  }\n}"
+		zzverif.Assume(k3 != k1)
+		root := New("root", text)
+		_ = root.AddType("@p", New("@p", aObject("", pp)))
+		_ = root.AddType("@q", New("@q", aObject("", qq)))
+		zzverif.Assert(root.Check() == nil, "disjoint parents merge")
+		ro, ok := root.Inner.RootNode().(*ischema.ObjectNode)
+		zzverif.Assert(ok && len(ro.Children()) == 3, "three members")
+		if ok && len(ro.Children()) == 3 {
+			aCheckObject(ro.Children()[0].(*ischema.ObjectNode), append(aInherit(pp, "@p"), aInherit(qq, "@q")...))
+			aCheckObject(ro.Children()[1].(*ischema.ObjectNode), append([]aProp{{key: k3}}, aInherit(pp, "@p")...))
+			aCheckObject(ro.Children()[2].(*ischema.ObjectNode), aInherit(qq, "@q"))
+			// the parents themselves are unchanged
+			aCheckObject(root.Inner.TypesList()["@p"].Schema.RootNode().(*ischema.ObjectNode), pp)
+			aCheckObject(root.Inner.TypesList()["@q"].Schema.RootNode().(*ischema.ObjectNode), qq)
+		}
+	case 1: // an heir nested inside a type that is only reached by reference
+		missing := zzverif.Bool("parentMissing")
+		nonObject := zzverif.Bool("parentNotObject")
+		zzverif.Assume(!(missing && nonObject))
+		zzverif.Assume(k3 != k1)
+		root := New("root", `{"ref": @t}`)
+		_ = root.AddType("@t", New("@t", "{\n  \"nested\": { // {allOf: \"@p\"}\n    \""+k3+"\": 1\n  }\n}"))
+		if !missing {
+			if nonObject {
+				_ = root.AddType("@p", New("@p", `"not an object"`))
+			} else {
+				_ = root.AddType("@p", New("@p", aObject("", pp)))
+			}
+		}
+		err := root.Check()
+		zzverif.Assert((err != nil) == (missing || nonObject), "allOf inside a referenced type is compiled and checked like anywhere else")
+		if err == nil {
+			to := root.Inner.TypesList()["@t"].Schema.RootNode().(*ischema.ObjectNode)
+			aCheckObject(to.Children()[0].(*ischema.ObjectNode), append([]aProp{{key: k3}}, aInherit(pp, "@p")...))
+		}
+	default: // an inherited property whose value is an object keeps that object's keys as written
+		K := string([]byte{zzverif.OneOf("K", "aAbBzZ")}) + "x"
+		root := New("root", "{ // {allOf: \"@p\"}\n}")
+		_ = root.AddType("@p", New("@p", `{"addr": {"`+K+`": 1, "`+k1+`": 2}}`))
+		zzverif.Assume(K != k1)
+		zzverif.Assert(root.Check() == nil, "inherits an object-valued property")
+		ro := root.Inner.RootNode().(*ischema.ObjectNode)
+		zzverif.Assert(len(ro.Children()) == 1, "one inherited property")
+		if len(ro.Children()) == 1 {
+			inner, ok := ro.Children()[0].(*ischema.ObjectNode)
+			zzverif.Assert(ok && len(inner.Children()) == 2 && inner.Key(0).Key == K && inner.Key(1).Key == k1, "the inherited object's keys are unchanged")
+			ex, _ := root.Example()
+			zzverif.Assert(string(ex) == `{"addr":{"`+K+`":1,"`+k1+`":2}}`, "Example() shows the inherited object as written")
+		}
+	}
+	zzverif.Reach("checked")
 }
